@@ -120,6 +120,41 @@ def run(chk, model_ok=True):
     for ln, out, want in zip(st2.lines, st2.impl, expect):
         if out != want:
             fail(ln, out, f"print(parse(s)) != s: expected {want}")
+    # end to end: what reaches the wire for texts handed to get / get_many / GetIter
+    from props import c03
+    from vlib import e2e, sessions
+    env = e2e.env()
+    n_e2e = 0
+    for peer in [e2e.Peer("v2c"), e2e.Peer("v1"), e2e.Peer("v3", auth=1, priv=2)]:
+        s = sessions.Sess(env, peer, rng)
+        for _ in range(150 if quick else 4000):
+            k = rng.randrange(4)
+            good = lambda: sessions.rand_oid_text(rng)
+            badt = lambda: sessions.bad_oid_text(rng)
+            if k == 0:
+                rec = s.send("get", good() if rng.random() < 0.5 else badt())
+            elif k == 1:
+                lst = [good() for _ in range(rng.randrange(0, 4))]
+                if rng.random() < 0.6:
+                    lst.insert(rng.randrange(len(lst) + 1), badt())
+                rec = s.send("getmany", lst)
+            else:
+                t = good() if rng.random() < 0.5 else badt()
+                it = s.new_iter(t, 5)
+                if (it is None) != (c03.text_denotes(t) is None):
+                    fail("oidstr " + t.encode().hex(), "-", f"GetIter({t!r}) {'refused a valid' if it is None else 'accepted a malformed'} OID text")
+                if it is None:
+                    continue
+                rec = s.send("getnext" if k == 2 else ("getbulk" if peer.kind != "v1" else "getnext"), it=it)
+                if rec["result"][0] == "ok" and rec["req"] and rec["req"].get("varbinds"):
+                    if list(rec["req"]["varbinds"][0][0]) != c03.text_denotes(t):
+                        fail("oidstr " + t.encode().hex(), "-", f"walk base {t!r} reached the wire as {rec['req']['varbinds'][0][0]}")
+                continue
+            n_e2e += 1
+            why = c03.check_request(s, rec, {(0, 0)})
+            if why:
+                fail(s.line()[:2000], str(rec["result"]), f"{peer.label} {rec['op']}({str(rec['arg'])[:80]}): {why}")
+    chk.coverage["e2e_calls"] = n_e2e
     st.diff("C08 oid text")
     st2.diff("C08 print-back")
     st.coverage(
